@@ -200,6 +200,11 @@ func Load(configFile string) Configuration {
 			Conf.Security.UserTokenEncryptionKey, _ = security.GenerateRandomString(32)
 			log.Printf("No valid `security.usertokenencryptionkey` specified (empty or not 32 characters). Setting to random")
 		}
+		// the signing key is optional (encrypt only when absent), but never run with a short one
+		if len(Conf.Security.UserTokenSigningKey) > 0 && len(Conf.Security.UserTokenSigningKey) != 32 {
+			Conf.Security.UserTokenSigningKey, _ = security.GenerateRandomString(32)
+			log.Printf("No valid `security.usertokensigningkey` specified (not 32 characters). Setting to random")
+		}
 	}
 
 	if len(Conf.Server.SessionKey) != 32 {
